@@ -52,15 +52,19 @@ Dbl(x, n) == IF n = 0 THEN x ELSE Dbl(x \o x, n - 1)
 Pad(f) == IF "pad" \in DOMAIN f /\ f.pad THEN Dbl(" generated banner", 12) ELSE ""
 \* line terminator of the file: "\n" or "\r\n" (f.eol); the line of a declaration is the same under both
 Eol(f) == IF "eol" \in DOMAIN f THEN f.eol ELSE "\n"
+\* f.crc: every declaration (type, extend type, define, condition) stands behind a comment that a carriage return on its own ends -
+\* a line break for the lexer, no new line for positions: the declaration is on the line the comment begins
+Crc(f) == "crc" \in DOMAIN f /\ f.crc
+CrC(f, txt) == IF Crc(f) THEN "# " \o txt \o "\r" ELSE ""
 RECURSIVE RelLines(_, _, _, _)
 \* f.cont: the type restriction of the FIRST relation of every declaration continues on a second line, and that line begins with a
 \* restriction on a type that is called `type` (a keyword the grammar admits as a name): it reads like a declaration, it is none
 Cont(f) == "cont" \in DOMAIN f /\ f.cont
 \* (the second restriction names the relation itself: metadata that ends up under another relation of the same block shows)
-RelLines(f, rels, i, k) == IF i > Len(rels) THEN "" ELSE "    define" \o Gap(f) \o rels[i] \o (IF Loose(f) THEN " :" ELSE ":") \o " [k" \o ToString(k) \o ", own_" \o rels[i]
+RelLines(f, rels, i, k) == IF i > Len(rels) THEN "" ELSE "    " \o (IF Crc(f) THEN "# define zz\r    " ELSE "") \o "define" \o Gap(f) \o rels[i] \o (IF Loose(f) THEN " :" ELSE ":") \o " [k" \o ToString(k) \o ", own_" \o rels[i]
                              \o (IF Cont(f) /\ i = 1 THEN "," \o Eol(f) \o "      type with kc]" ELSE "]") \o Eol(f) \o RelLines(f, rels, i + 1, k)
 DeclText(f, d, k) == (IF Loose(f) THEN Eol(f) ELSE "")
-                     \o (IF d.kind = "ext" THEN "extend" \o Gap(f) \o "type" \o Gap(f) ELSE "type" \o Gap(f)) \o d.name \o Eol(f)
+                     \o CrC(f, "type zz") \o (IF d.kind = "ext" THEN "extend" \o Gap(f) \o "type" \o Gap(f) ELSE "type" \o Gap(f)) \o d.name \o Eol(f)
                      \o (IF Len(d.rels) > 0 THEN "  relations" \o Eol(f) \o RelLines(f, d.rels, 1, k) ELSE "")
 DeclLen(f, d) == (IF Loose(f) THEN 1 ELSE 0) + 1 + (IF Len(d.rels) > 0 THEN 1 + Len(d.rels) + (IF Cont(f) THEN 1 ELSE 0) ELSE 0)
 \* f.lure: the body of every condition begins with a line that reads like the header of the condition declared next (CEL text is not
@@ -71,7 +75,7 @@ Brace(f) == "brace" \in DOMAIN f /\ f.brace
 \* f.plain: the condition bodies do not carry the number of the file (two files of one module that declare the SAME condition,
 \* word for word, still declare it twice)
 PlainBody(f) == "plain" \in DOMAIN f /\ f.plain
-CondText(f, c, k, next) == (IF Loose(f) THEN Eol(f) ELSE "") \o "condition" \o Gap(f) \o c \o (IF Loose(f) THEN " (x: int) {" ELSE "(x: int) {") \o Eol(f)
+CondText(f, c, k, next) == (IF Loose(f) THEN Eol(f) ELSE "") \o CrC(f, "k") \o "condition" \o Gap(f) \o c \o (IF Loose(f) THEN " (x: int) {" ELSE "(x: int) {") \o Eol(f)
                            \o (IF Lure(f) THEN "  condition " \o next \o " (x) ||" \o Eol(f) ELSE "")
                            \o (IF Brace(f) THEN "  \"{\" != \"\" &&" \o Eol(f) ELSE "")
                            \o "  x < " \o (IF PlainBody(f) THEN "100" ELSE ToString(k)) \o Eol(f) \o "}" \o Eol(f)
